@@ -218,8 +218,25 @@ Lemma handle_rmdir_Ev s h n : Ev s (fst (handle_rmdir s h n)).
 Proof. unfold handle_rmdir. ewalk. Qed.
 Lemma handle_rename_Ev s h1 n1 h2 n2 : Ev s (fst (handle_rename s h1 n1 h2 n2)).
 Proof. unfold handle_rename. ewalk. Qed.
+(* the symlink check of MNT only Lstat-s prefixes: table, node attributes and backend tree are untouched *)
+Lemma mnt_prefix_check_keep fuel : forall s pre,
+  keep s (fst (mnt_prefix_check s pre fuel)) /\ fs (fst (mnt_prefix_check s pre fuel)) = fs s.
+Proof.
+  induction fuel as [|k IH]; intros s pre; cbn [mnt_prefix_check]; [destruct pre; (split; [apply keep_refl|reflexivity])|].
+  destruct pre as [|c r]; [split; [apply keep_refl|reflexivity]|].
+  unfold do_lstat. destruct (IH (logc s (bc BLstat (c :: r))) (removelast (c :: r))) as [K F].
+  destruct (be_stat (fs s) (c :: r) false) as [fi|e]; [destruct (kind_eqb (fi_kind fi) KLink)|]; cbn [fst].
+  - split; [apply logc_keep|reflexivity].
+  - split; [eapply keep_trans; [apply logc_keep|exact K]|exact F].
+  - split; [eapply keep_trans; [apply logc_keep|exact K]|exact F].
+Qed.
 Lemma handle_mnt_Ev s p : Ev s (fst (handle_mnt s p)).
-Proof. unfold handle_mnt. ewalk. Qed.
+Proof.
+  unfold handle_mnt. destruct (negb (is_abs p)); [apply Ev_refl|]. cbv zeta.
+  destruct (mnt_prefix_check_keep (length (clean_comps [] (split_path p))) s (removelast (clean_comps [] (split_path p)))) as [K0 _].
+  destruct (mnt_prefix_check s _ _) as [s0 linked]. cbn [fst] in K0.
+  eapply Ev_trans; [apply Ev_keep; exact K0|]. destruct linked; [apply Ev_refl|]. ewalk.
+Qed.
 
 (* ---------- directory listings ---------- *)
 Lemma lookup_all_keep d names : forall s, keep s (fst (lookup_all s d names)).
@@ -500,12 +517,13 @@ Definition req_targets (r : req) : list (N * option name) :=
   end.
 (* q is: the path the table of s holds for a handle of the request; or that path joined with the name that
    goes with the handle in the request; or (READDIR / READDIRPLUS) joined with a sane name of the listing;
-   or (MNT) the cleaned path a handle is requested for *)
+   or (MNT) the cleaned path a handle is requested for, or a non-empty proper prefix of it (Lstat-ed by the
+   symlink check before the handle is issued) *)
 Definition served (s : srv) (r : req) (q : path) : Prop :=
   (exists h on p, In (h, on) (req_targets r) /\ get (hm s) h = Some p /\
      (q = p \/ (exists n, on = Some n /\ q = p ++ [n]) \/
       (is_listing r = true /\ exists c, name_sane c = true /\ q = p ++ [c])))
-  \/ (exists mp, r = RMnt mp /\ q = clean_comps [] (split_path mp)).
+  \/ (exists mp rest, r = RMnt mp /\ q ++ rest = clean_comps [] (split_path mp) /\ (q <> [] \/ rest = [])).
 
 Lemma step_served s c r : T (served s r) (clear_log s) (fst (step s c r)).
 Proof.
@@ -545,7 +563,7 @@ Proof.
   - apply handle_fsx_T. intros p. apply (S1 h None). left; reflexivity.
   - apply handle_fsx_T. intros p. apply (S1 h None). left; reflexivity.
   - apply handle_commit_T. intros p. apply (S1 h None). left; reflexivity.
-  - apply handle_mnt_T. right. exists p. split; reflexivity.
+  - apply handle_mnt_T. intros pre rest E D. right. exists p, rest. auto.
   - apply T_of_same, with_conf_same.
   - apply T_of_same, with_conf_same.
   - apply T_of_same, with_conf_same.
@@ -569,7 +587,7 @@ Lemma served_single s c r h on p a b : req_targets r = [(h, on)] -> lookup_node 
   (is_listing r = true /\ exists cn, name_sane cn = true /\ b_path b = p ++ [cn]).
 Proof.
   intros Et L Hb. apply lookup_node_get in L.
-  destruct (served_calls s c r) as [A _]. destruct (A b Hb) as [[(h' & on' & p' & Hin & G & D)|(mp & -> & _)] _].
+  destruct (served_calls s c r) as [A _]. destruct (A b Hb) as [[(h' & on' & p' & Hin & G & D)|(mp & rest & -> & _)] _].
   - rewrite Et in Hin. destruct Hin as [[= <- <-]|[]]. rewrite L in G. injection G as <-. exact D.
   - discriminate Et.
 Qed.
@@ -625,7 +643,13 @@ Lemma handle_symlink_live s c h n sa t d da : HInv s -> lookup_node s h = Some (
   LiveRes (d ++ [n]) (handle_symlink s c h n sa t).
 Proof. intros HI L. unfold handle_symlink. cbv zeta. rewrite L. des; live_leaf HI. Qed.
 Lemma handle_mnt_live s p : HInv s -> LiveRes (clean_comps [] (split_path p)) (handle_mnt s p).
-Proof. intros HI. unfold handle_mnt. cbv zeta. des; live_leaf HI. Qed.
+Proof.
+  intros HI. unfold handle_mnt. destruct (negb (is_abs p)); [apply live_nofh; reflexivity|]. cbv zeta.
+  destruct (mnt_prefix_check_keep (length (clean_comps [] (split_path p))) s (removelast (clean_comps [] (split_path p)))) as [K0 _].
+  destruct (mnt_prefix_check s _ _) as [s0 linked]. cbn [fst] in K0.
+  assert (HI0 : HInv s0) by (unfold HInv; destruct K0 as [-> _]; exact HI).
+  destruct linked; [apply live_nofh; reflexivity|]. des; live_leaf HI0.
+Qed.
 Lemma handle_lookup_live s h n d da : HInv s -> lookup_node s h = Some (d, da) ->
   LiveRes (d ++ [n]) (handle_lookup s h n).
 Proof.
@@ -823,13 +847,17 @@ Lemma handle_mnt_same s mp fh a0 fh' : HInv s ->
   lookup_node s fh = Some (clean_comps [] (split_path mp), a0) -> ob_fh (snd (handle_mnt s mp)) = Some fh' -> fh' = fh.
 Proof.
   intros HI Lf. unfold handle_mnt. destruct (negb (is_abs mp)); [intros F; discriminate F|].
-  set (cp := clean_comps [] (split_path mp)) in *.
-  pose proof (srv_lookup_keep s cp) as K1. destruct (srv_lookup s cp) as [s1 r]. cbn [fst] in K1.
+  set (cp := clean_comps [] (split_path mp)) in *. cbv zeta.
+  destruct (mnt_prefix_check_keep (length cp) s (removelast cp)) as [K0 _].
+  destruct (mnt_prefix_check s (removelast cp) (length cp)) as [s0 linked]. cbn [fst] in K0.
+  destruct linked; [intros F; discriminate F|].
+  pose proof (srv_lookup_keep s0 cp) as K1. destruct (srv_lookup s0 cp) as [s1 r]. cbn [fst] in K1.
+  assert (K : keep s s1) by (eapply keep_trans; eassumption).
   destruct r as [a|e]; [|intros F; discriminate F].
   pose proof (alloc_same s1 cp a fh a0) as S. destruct (alloc s1 cp a) as [s2 fh2].
   cbn [snd ob_mk ob_fh]. intros [= <-]. cbn [snd] in S. apply S.
-  - unfold HInv. destruct K1 as [-> _]. exact HI.
-  - rewrite (keep_lookup_node s s1 fh K1). exact Lf.
+  - unfold HInv. destruct K as [-> _]. exact HI.
+  - rewrite (keep_lookup_node s s1 fh K). exact Lf.
 Qed.
 Lemma step_same_handle s c r fh a0 fh' : HInv s -> ob_fh (snd (step s c r)) = Some fh' ->
   match r with
@@ -899,17 +927,22 @@ Definition ex1_pre : list hstep :=
 Definition ex1_state : srv := hfinal (srv_init_fs fs_init ex_cfg 1 100) ex1_pre.
 Definition ex1_rdp : srv * obs := hrun1 ex1_state (ex_hs (RReaddirplus 1 0 4096 4096)).
 
+Definition entry_live_b (s : srv) (e : dentry) : bool :=
+  match de_fh e with
+  | Some fh => match lookup_node s fh with Some _ => true | None => false end
+  | None => true
+  end.
+Lemma all_live_b s es : (forall e fh, In e es -> de_fh e = Some fh -> lookup_node s fh <> None) ->
+  forallb (entry_live_b s) es = true.
+Proof.
+  intros H. apply forallb_forall. intros e He. unfold entry_live_b. destruct (de_fh e) as [fh|] eqn:Ef; [|reflexivity].
+  specialize (H e fh He Ef). destruct (lookup_node s fh); [reflexivity|congruence].
+Qed.
 Lemma readdirplus_all_live_refuted : ~ readdirplus_all_live_statement.
 Proof.
   intros H0.
-  assert (H : forall e fh, In e (ob_entries (snd ex1_rdp)) -> de_fh e = Some fh -> lookup_node (fst ex1_rdp) fh <> None)
-    by exact (H0 fs_init ex_cfg 1%Z 100 ex1_pre (ex_hs (RReaddirplus 1 0 4096 4096)) 1 0 4096 4096 eq_refl).
-  clear H0.
-  assert (B : forallb (fun e => match de_fh e with
-                                | Some fh => match lookup_node (fst ex1_rdp) fh with Some _ => true | None => false end
-                                | None => true end) (ob_entries (snd ex1_rdp)) = true).
-  { apply forallb_forall. intros e He. destruct (de_fh e) as [fh|] eqn:Ef; [|reflexivity].
-    specialize (H e fh He Ef). destruct (lookup_node (fst ex1_rdp) fh); [reflexivity|congruence]. }
+  pose proof (all_live_b (fst ex1_rdp) (ob_entries (snd ex1_rdp))
+    (H0 fs_init ex_cfg 1%Z 100 ex1_pre (ex_hs (RReaddirplus 1 0 4096 4096)) 1 0 4096 4096 eq_refl)) as B.
   vm_compute in B. discriminate B.
 Qed.
 
